@@ -230,7 +230,8 @@ def gen_template(rng):
     holds a popped connection while another request waits"""
     k = rng.randrange(7)
     pb = rng.choice([1, 2])
-    t = rng.choice(["preempt_owner", "preempt_owner", "pop_window", "pushback", "owner_fails", "refill", "refill"])
+    t = rng.choice(["preempt_owner", "preempt_owner", "pop_window", "pushback", "owner_fails", "refill", "refill",
+                    "owner_dropped", "owner_dropped"])
     if t == "preempt_owner":
         ops = [["I", k, 1], ["P", 0], ["D", 0, "o"], ["P", 0],
                ["I", k, 2], ["P", 1], ["I", k, pb], ["P", 2],
@@ -262,6 +263,16 @@ def gen_template(rng):
         ops += [["F", keep], ["P", keep], ["R", keep], ["B"]]
         ops += rng.choice([[["X", n]], [["P", n]], [["X", n], ["I", k, 1], ["P", n + 1]]])
         nreq, nconn = n + 2, n
+    elif t == "owner_dropped":
+        # the owner of an in-flight HTTP/2 attempt is dropped after its dial started (the attempt continues in the
+        # background or is dropped, depending on the configuration); newcomers arrive before the dial resolves
+        ops = [["I", k, 2], ["P", 0], ["X", 0]]
+        ops += rng.choice([[], [["B"]]])
+        ops += [["I", k, 2], ["P", 1]]
+        ops += rng.choice([[], [["I", k, pb], ["P", 2]]])
+        ops += rng.choice([[["D", 0, "o"], ["B"]], [["D", 0, "c"], ["B"]], [["B"], ["D", 0, "o"], ["B"]]])
+        ops += [["P", 1], ["I", k, 2], ["P", 3 if len([o for o in ops if o[0] == "I"]) == 3 else 2]]
+        nreq, nconn = 4, 2
     else:  # owner_fails
         ops = [["I", k, 2], ["I", k, pb], ["I", k, 2], ["P", 0], ["P", 1], ["P", 2]]
         ops += rng.choice([[["D", 0, "c"], ["P", 0]], [["D", 0, "h"], ["P", 0]], [["X", 0], ["B"]], [["X", 0], ["D", 0, "c"], ["B"]]])
